@@ -801,6 +801,22 @@ func (p *c14) metadata(x *res, adapter string, ctx *runner.Ctx) {
 			_, err := cl.Raw().(*v2client.Client).CreateTable(context.Background(), in)
 			return in, err == nil
 		}},
+		{"input/UpdateTable", func(cl adapt.Client) (interface{}, bool) {
+			// the request names the billing mode the table has and creates an index without throughput
+			if cl.Do(createOp(spec)).Class != adapt.ClsOK {
+				return nil, false
+			}
+			uop := adapt.Op{Kind: adapt.OpUpdateTable, Table: spec.Name, Billing: "PAY_PER_REQUEST", NoThroughput: true,
+				Chg: []adapt.IndexChange{{Create: &adapt.IndexSpec{Name: "upd", Hash: "u", Proj: "INCLUDE", NonKey: []string{"d"}}}}}
+			if adapter == "v1" {
+				in := adapt.V1UpdateInput(uop)
+				_, err := cl.Raw().(*v1client.Client).UpdateTable(in)
+				return in, err == nil
+			}
+			in := adapt.V2UpdateInput(uop)
+			_, err := cl.Raw().(*v2client.Client).UpdateTable(context.Background(), in)
+			return in, err == nil
+		}},
 		{"output/DescribeTable", func(cl adapt.Client) (interface{}, bool) {
 			if cl.Do(createOp(spec)).Class != adapt.ClsOK {
 				return nil, false
